@@ -11,12 +11,20 @@ ASSUME = ["built with std, without hash (checksum not computed; C08 covers hashi
           "source is harness type ArrSrc (array + index copy), a legal `impl Read`",
           "truncation instances: once ArrSrc has reported UnexpectedEof, a further read on it within the same harness ends the path (the decoder returns on the first read error; CBMC cannot fold the niche-encoded Err discriminant and would otherwise walk the infeasible success continuation)"]
 out = []
+ROT = {}
 def add(name, props, tier, bound, est=110, unwind=26, extra_enc=None, mem=6, features="std", stubs=None):
+    # tier "rotN": part of the quick tier only when VERIF_SEED % N == seed_group (assigned round-robin per N)
+    sg = 0
+    if tier.startswith("rot"):
+        n = int(tier[3:])
+        sg = ROT.get(tier, 0) % n
+        ROT[tier] = ROT.get(tier, 0) + 1
     out.append('''[[harness]]
 name = "%s"
 file = "decoding/frame_decoder.rs"
 props = %s
 tier = "%s"
+seed_group = %d
 features = "%s"
 unwind = %d
 est_s = %d
@@ -26,48 +34,49 @@ stubs = %s
 encodes = %s
 bound = "%s"
 assumes = %s
-''' % (name, str(props).replace("'", '"'), tier, features, unwind, est, max(600, est * 4), mem, str(stubs or []).replace("'", '"'),
+''' % (name, str(props).replace("'", '"'), tier, sg, features, unwind, est, 800, mem, str(stubs or []).replace("'", '"'),
        str(ENC_FD + (extra_enc or [])).replace("'", '"'), bound, str(ASSUME).replace("'", '"')))
 
 complete = [
- ("fd_complete_raw0", "one empty raw last block (single segment, content size 0)", "quick"),
+ ("fd_complete_raw0", "one empty raw last block (single segment, content size 0)", "rot3"),
  ("fd_complete_raw1", "raw(1)", "thorough"),
- ("fd_complete_raw4_ck", "raw(4) + checksum trailer", "quick"),
+ ("fd_complete_raw4_ck", "raw(4) + checksum trailer", "rot3"),
  ("fd_complete_rle1", "RLE(1)", "thorough"),
- ("fd_complete_rle3_ck", "RLE(3) + checksum trailer", "quick"),
- ("fd_complete_rle3_raw2", "RLE(3)+raw(2)", "quick"),
+ ("fd_complete_rle3_ck", "RLE(3) + checksum trailer", "rot3"),
+ ("fd_complete_rle3_raw2", "RLE(3)+raw(2)", "rot3"),
  ("fd_complete_rle3_raw2_ck_frag1", "RLE(3)+raw(2)+checksum, source delivers 1 byte per read", "quick"),
- ("fd_complete_raw2_raw0", "raw(2)+empty last raw block", "quick"),
- ("fd_complete_raw4_raw3_raw0_ck_frag2", "raw(4)+raw(3)+empty last block+checksum, source delivers 2 bytes per read", "quick"),
+ ("fd_complete_raw2_raw0", "raw(2)+empty last raw block", "rot3"),
+ ("fd_complete_raw4_raw3_raw0_ck_frag2", "raw(4)+raw(3)+empty last block+checksum, source delivers 2 bytes per read", "rot3"),
  ("fd_complete_wd_rle3_raw2", "window descriptor 0 (1 KiB), RLE(3)+raw(2), no content size", "quick"),
  ("fd_complete_lying_ck", "single-segment size 2 but 8 bytes of content: raw(3)+RLE(3)+raw(2)+checksum (ring grows)", "quick"),
 ]
 for n, d, t in complete:
-    add(n, ["C01", "C10"], t, "skeleton: %s; every payload/trailer byte and two bytes following the frame symbolic; strategy All, one read" % d)
+    add(n, ["C01", "C10"] if n in ("fd_complete_rle3_raw2_ck_frag1", "fd_complete_raw2_raw0", "fd_complete_raw4_raw3_raw0_ck_frag2") else ["C01"], t, "skeleton: %s; every payload/trailer byte and two bytes following the frame symbolic; strategy All, one read" % d)
 
-cuts_quick = ["05_all", "06_all", "08_all", "09_obo", "10_obo", "10_all", "12_obo", "13_all", "14_obo", "15_obo", "15_all", "17_obo", "18_all", "19_obo"]
+cuts_quick = ["05_all", "09_obo", "12_obo", "15_all", "18_all", "19_obo"]
+cuts_rot = ["06_all", "08_all", "10_obo", "10_all", "13_all", "14_obo", "15_obo", "17_obo"]
 cuts_thorough = ["00_all", "03_all", "04_all", "07_obo", "11_all", "16_all", "16_obo", "18_obo"]
-for c in cuts_quick + cuts_thorough:
+for c in cuts_quick + cuts_rot + cuts_thorough:
     cut, sched = c.split("_")
-    add("fd_cut_rle3raw2ck_" + c, ["C10", "C03"] if c in ("06_all", "09_obo", "13_all", "17_obo") else ["C10"], "quick" if c in cuts_quick else "thorough",
+    add("fd_cut_rle3raw2ck_" + c, ["C10", "C03"] if c in ("09_obo", "12_obo") else ["C10"], "quick" if c in cuts_quick else ("rot4" if c in cuts_rot else "thorough"),
         "skeleton RLE(3)+raw(2)+checksum (19 bytes) cut after %d bytes, schedule %s; every payload byte symbolic" % (int(cut), "one block per call, read after each" if sched == "obo" else "All"))
-for c, t in (("11_all", "quick"), ("13_obo", "quick"), ("14_obo", "thorough")):
+for c, t in (("11_all", "rot4"), ("13_obo", "rot4"), ("14_obo", "thorough")):
     cut, sched = c.split("_")
     add("fd_cut_raw2raw0_" + c, ["C10"], t,
         "skeleton raw(2)+empty last block (14 bytes) cut after %d bytes, schedule %s" % (int(cut), "one block per call" if sched == "obo" else "All"))
 
 progs = [
  ("fd_prog_a_blocks1_read_each", "A", "inf", "Blocks(1) Read(8) x3", "quick"),
- ("fd_prog_a_blocks1_collect_each", "A", "inf", "Blocks(1) collect x3", "quick"),
- ("fd_prog_a_blocks2_read1_frag3", "A", "3", "Blocks(2) Read(1) Read(1) Blocks(1) Read(2)", "quick"),
- ("fd_prog_a_bytes1_sink_partial", "A", "inf", "Bytes(1) Bytes(1) Sink(takes 1, then Ok(0)) Sink(8) Bytes(1)", "quick"),
+ ("fd_prog_a_blocks1_collect_each", "A", "inf", "Blocks(1) collect x3", "rot3"),
+ ("fd_prog_a_blocks2_read1_frag3", "A", "3", "Blocks(2) Read(1) Read(1) Blocks(1) Read(2)", "rot3"),
+ ("fd_prog_a_bytes1_sink_partial", "A", "inf", "Bytes(1) Bytes(1) Sink(takes 1, then Ok(0)) Sink(8) Bytes(1)", "rot3"),
  ("fd_prog_a_bytes4_sink_wouldblock_retry", "A", "inf", "Bytes(4) Sink(2 then WouldBlock) Sink(WouldBlock at once) Sink(8) All Sink(3 then WouldBlock)", "quick"),
  ("fd_prog_a_all_sink_split", "A", "1", "All Sink(5 then Ok(0)) Sink(1 then WouldBlock) Read(1)", "quick"),
- ("fd_prog_a_bytes6_collect_read", "A", "2", "Bytes(6) collect Read(8) Blocks(1) collect", "quick"),
+ ("fd_prog_a_bytes6_collect_read", "A", "2", "Bytes(6) collect Read(8) Blocks(1) collect", "rot3"),
  ("fd_prog_a_blocks1_sink0", "A", "inf", "Blocks(1) Sink(0) Blocks(1) Sink(8) Sink(8)", "thorough"),
  ("fd_prog_b_blocks1_read_small", "B", "inf", "Blocks(1) Read(3) Blocks(1) Read(3) Blocks(1) Read(1)", "quick"),
- ("fd_prog_b_bytes5_collect", "B", "4", "Bytes(5) collect Bytes(5) collect", "quick"),
- ("fd_prog_b_all_sink_then_read", "B", "inf", "All Sink(3 then WouldBlock) Read(2) Sink(8)", "quick"),
+ ("fd_prog_b_bytes5_collect", "B", "4", "Bytes(5) collect Bytes(5) collect", "rot3"),
+ ("fd_prog_b_all_sink_then_read", "B", "inf", "All Sink(3 then WouldBlock) Read(2) Sink(8)", "rot3"),
  ("fd_prog_b_blocks2_then_all", "B", "5", "Blocks(2) collect All", "thorough"),
  ("fd_prog_c_blocks1_read_each", "C", "inf", "Blocks(1) Read(8) Blocks(1) Read(2)", "quick"),
  ("fd_prog_a2_bytes3_read2", "A'", "inf", "Bytes(3) Read(2) x3", "thorough"),
@@ -80,17 +89,17 @@ for n, sk, chunk, prog, t in progs:
     add(n, ["C06"], t, "skeleton %s: %s; source chunk %s; driver program [%s] then finish and drain; every payload byte symbolic" % (sk, SK[sk], chunk, prog), est=200)
 
 reuse = [
- ("fd_reuse_complete_drained", "A = RLE(3)+raw(2)+ck completed and drained; B = raw(4)+ck", "quick"),
+ ("fd_reuse_complete_drained", "A = RLE(3)+raw(2)+ck completed and drained; B = raw(4)+ck", "rot2"),
  ("fd_reuse_complete_undrained", "A completed, output left in the decoder; B = raw(1)", "quick"),
  ("fd_reuse_abandoned", "A (lying window, 3 blocks) abandoned after its first block; B = RLE(3)+ck", "quick"),
  ("fd_reuse_truncated_block", "A truncated inside its second block (error ignored); B = RLE(3)+raw(2)", "quick"),
- ("fd_reuse_truncated_checksum", "A truncated inside its checksum; B = raw(2)+empty last", "quick"),
+ ("fd_reuse_truncated_checksum", "A truncated inside its checksum; B = raw(2)+empty last", "rot2"),
  ("fd_reuse_truncated_header", "A truncated inside its header (reset fails); B = raw(4)+ck", "quick"),
- ("fd_reuse_larger_window", "A = raw(1) (window 1); B = window descriptor 1 KiB", "quick"),
- ("fd_reuse_smaller_window", "A = window 1 KiB left undrained; B = lying window 2 (3 blocks)", "quick"),
+ ("fd_reuse_larger_window", "A = raw(1) (window 1); B = window descriptor 1 KiB", "rot2"),
+ ("fd_reuse_smaller_window", "A = window 1 KiB left undrained; B = lying window 2 (3 blocks)", "rot2"),
 ]
 for n, d, t in reuse:
-    add(n, ["C07", "C03"] if n in ("fd_reuse_truncated_block", "fd_reuse_truncated_header") else ["C07"], t, "history: %s; every payload byte of both frames symbolic; B's bytes, consumed count, finished flag, checksum accessors checked against B's own values" % d, est=200)
+    add(n, ["C07", "C03"] if n in ("fd_reuse_truncated_header",) else ["C07"], t, "history: %s; every payload byte of both frames symbolic; B's bytes, consumed count, finished flag, checksum accessors checked against B's own values" % d, est=200)
 
 open(os.path.join(HERE, "registry_fd.toml"), "w").write("# generated by gen_registry_fd.py - do not edit\n\n" + "\n".join(out))
 print(len(out), "harnesses")
